@@ -575,8 +575,8 @@ def generate():
     im_, imty = MatTr({"self.mat": ("mat", "mat")}).expr(args[0])
     expect(single_return(gg, "as_matrix"), "self.mat", "GeneralGate.as_matrix")
     out += ["(* GeneralGate *)",
-            "Definition gen_general_unitary_test (n : nat) (mat : BMx K) : (BMx K * BMx K)%type :=\n  (%s, %s)." % (ua, ub),
-            "Definition gen_general_hermitian_test (mat : BMx K) : (BMx K * BMx K)%type :=\n  (%s, %s)." % (ha, hb),
+            "Definition gen_general_unitary_test (n : nat) (mat : BMx K) : (BMx K * BMx K)%%type :=\n  (%s, %s)." % (ua, ub),
+            "Definition gen_general_hermitian_test (mat : BMx K) : (BMx K * BMx K)%%type :=\n  (%s, %s)." % (ha, hb),
             "Definition gen_general_inv_mat (mat : BMx K) : BMx K := %s." % im_,
             plist_def("gen_general_inv_particles", reb["prtcl"]), ""]
 
